@@ -146,8 +146,10 @@ def c_train(ctx, case):
     f.fit(X, y)
     for name in "VUD":
         a, b = np.asarray(getattr(f, name), float), np.asarray(getattr(m, name), float)
-        ctx.close(a, b, "fit(em_iterations=%d) %s vs composition of public steps" % (case["em"], name), rtol=1e-9,
-                  atol=1e-11 * (np.abs(b).max() + 1e-300))
+        # the per-class composition adds the accumulators in another order than fit's single E-step: re-association
+        # tolerance as for the other list-vs-partitioned comparisons (C04, C12); the same order must agree to 1e-9
+        ctx.close(a, b, "fit(em_iterations=%d) %s vs composition of public steps" % (case["em"], name),
+                  rtol=1e-7 if chunked else 1e-9, atol=(1e-9 if chunked else 1e-11) * (np.abs(b).max() + 1e-300))
 
 
 @REG.obligation("fit_v_trajectory_monotone", g_train, quick=200, thorough=4000, shard_size=40)
